@@ -574,3 +574,124 @@ Proof.
       * destruct (eqb_name nm name_free || eqb_name nm name_skip); eexists; [|reflexivity].
         f_equal. f_equal. unfold addu64. rewrite N.mod_small; lia.
 Qed.
+
+(* ---------------------------------------------------------------- the two byte-level file loops on canonical files *)
+Section FILEC.
+Variable ld : leafdec.
+Hypothesis LD : leaf_ok ld.
+
+Lemma file_sr_canon : forall cs, Forall (cwf ld) cs -> (lenN (cencs cs) < 4294967296)%N ->
+  forall fuel pos acc pre cst r s',
+    zlen (pre ++ cencs cs) < two63 -> (pos + lenN (cencs cs) < 18446744073709551616)%N ->
+    zlen (cencs cs) + 1 < Z.of_nat fuel ->
+    file_boxes_sr ld fuel pos acc (sr_at (pre ++ cencs cs) (zlen pre) cst) = (r, s') ->
+    r = Ok (rev acc ++ map erase cs).
+Proof.
+  induction cs as [|k rest IH]; intros HW Hl fuel pos acc pre cst r s' Hs Hp Hf Hrun.
+  - destruct fuel as [|f]; [cbn in Hf; unfold zlen in Hf; cbn in Hf; lia|].
+    cbn [file_boxes_sr cencs] in Hrun. rewrite app_nil_r in Hrun.
+    unfold nr_remaining, sr_at in Hrun. cbn [sr rerr rbuf rpos rlen] in Hrun. unfold rlen in Hrun. cbn [rbuf] in Hrun.
+    rewrite Z.sub_diag in Hrun. change (w64 0) with 0 in Hrun. rewrite Z.eqb_refl in Hrun.
+    apply pair_equal_spec in Hrun. destruct Hrun as [Hr _]. subst r. cbn [map]. rewrite app_nil_r. reflexivity.
+  - pose proof (Forall_inv HW) as HWk. pose proof (Forall_inv_tail HW) as HWr.
+    pose proof (cenc_len_ge8 ld k HWk) as Hk8.
+    destruct fuel as [|f]; [pose proof (zlen_nonneg (cencs (k :: rest))); lia|].
+    cbn [file_boxes_sr] in Hrun. cbn [cencs] in *. rewrite lenN_app in *. rewrite zlen_app in Hf.
+    assert (Hfk : fits k) by (unfold fits; lia).
+    (* there are bytes left *)
+    assert (Hnr : (nr_remaining (sr (sr_at (pre ++ cenc k ++ cencs rest) (zlen pre) cst)) =? 0) = false).
+    { unfold nr_remaining, sr_at, rlen. cbn [sr rerr rbuf rpos]. rewrite !zlen_app in *.
+      pose proof (zlen_nonneg (cencs rest)). pose proof (zlen_nonneg pre). pose proof (zlen_nonneg (cenc k)).
+      rewrite w64_id by (unfold two63 in *; lia). rewrite (zlen_lenN (cenc k)) in *. lia. }
+    rewrite Hnr in Hrun.
+    destruct (dec_box_sr ld f pos (sr_at (pre ++ cenc k ++ cencs rest) (zlen pre) cst)) as [rb s1] eqn:Eb.
+    (* not out of fuel *)
+    destruct (sr_loops ld LD f) as [HB _].
+    assert (HI : Inv (sr (sr_at (pre ++ cenc k ++ cencs rest) (zlen pre) cst))).
+    { unfold Inv, sr_at, rlen. cbn [sr rbuf rpos]. rewrite !zlen_app in *. pose proof (zlen_nonneg pre).
+      pose proof (zlen_nonneg (cenc k)). pose proof (zlen_nonneg (cencs rest)). lia. }
+    destruct (HB pos _ HI) as [rb' [s1' [Eb' [_ [NF _]]]]]. rewrite Eb in Eb'.
+    apply pair_equal_spec in Eb'. destruct Eb' as [Er Es]. subst rb' s1'.
+    assert (Hno : rb <> OutOfFuel).
+    { apply NF. unfold rem, sr_at, rlen. cbn [sr rbuf rpos]. rewrite !zlen_app in *. lia. }
+    assert (Ebuf : pre ++ cenc k ++ cencs rest = pre ++ cenc k ++ (cencs rest ++ [])) by (rewrite app_nil_r; reflexivity).
+    assert (Eb2 : dec_box_sr ld f pos (sr_at (pre ++ cenc k ++ (cencs rest ++ [])) (zlen pre) cst) = (rb, s1))
+      by (rewrite <- Ebuf; exact Eb).
+    destruct (box_canon_sr_all ld k HWk Hfk f pos pre (cencs rest ++ []) cst rb s1) as [Ho|[Ho Hs1]];
+      try exact Eb2; try lia.
+    { rewrite <- Ebuf. exact Hs. }
+    { contradiction. }
+    subst rb. rewrite (tsize_erase ld k HWk Hfk) in Hrun.
+    assert (Hpos' : addu64 pos (lenN (cenc k)) = (pos + lenN (cenc k))%N) by (unfold addu64; rewrite N.mod_small; lia).
+    rewrite Hpos' in Hrun.
+    destruct s1 as [r1 c1]. cbn [sr] in Hs1. subst r1. rewrite <- Ebuf in Hrun.
+    assert (Ebuf2 : pre ++ cenc k ++ cencs rest = (pre ++ cenc k) ++ cencs rest) by (rewrite <- app_assoc; reflexivity).
+    change {| sr := mkR (pre ++ cenc k ++ cencs rest) (zlen pre + zlen (cenc k)) false; scost := c1 |}
+      with (sr_at (pre ++ cenc k ++ cencs rest) (zlen pre + zlen (cenc k)) c1) in Hrun.
+    rewrite Ebuf2 in Hrun. replace (zlen pre + zlen (cenc k)) with (zlen (pre ++ cenc k)) in Hrun by apply zlen_app.
+    rewrite (IH HWr ltac:(lia) f (pos + lenN (cenc k))%N (erase k :: acc) (pre ++ cenc k) c1 r s'); try assumption; try lia.
+    + cbn [rev map]. rewrite <- app_assoc. reflexivity.
+    + rewrite <- Ebuf2. exact Hs.
+    + rewrite (zlen_lenN (cenc k)) in Hf. lia.
+Qed.
+
+Lemma file_r_canon : forall cs, Forall (cwf ld) cs -> (lenN (cencs cs) < 4294967296)%N ->
+  forall fuel pos acc pre cst r s',
+    zlen (pre ++ cencs cs) < two63 -> (pos + lenN (cencs cs) < 18446744073709551616)%N ->
+    zlen (cencs cs) + 1 < Z.of_nat fuel ->
+    file_boxes_r ld fuel pos acc (mkI (pre ++ cencs cs) (lenN pre) cst) = (r, s') ->
+    r = Ok (rev acc ++ map erase cs).
+Proof.
+  induction cs as [|k rest IH]; intros HW Hl fuel pos acc pre cst r s' Hs Hp Hf Hrun.
+  - destruct fuel as [|[|f]]; [cbn in Hf; unfold zlen in Hf; cbn in Hf; lia|cbn in Hf; unfold zlen in Hf; cbn in Hf; lia|].
+    cbn [file_boxes_r cencs dec_box_r] in Hrun. rewrite app_nil_r in Hrun.
+    unfold decode_header, read_full, iavail in Hrun. cbn [icharge ibuf ipos icost] in Hrun.
+    rewrite N.sub_diag, N.eqb_refl in Hrun.
+    apply pair_equal_spec in Hrun. destruct Hrun as [Hr _]. subst r. cbn [map]. rewrite app_nil_r. reflexivity.
+  - pose proof (Forall_inv HW) as HWk. pose proof (Forall_inv_tail HW) as HWr.
+    pose proof (cenc_len_ge8 ld k HWk) as Hk8.
+    destruct fuel as [|f]; [pose proof (zlen_nonneg (cencs (k :: rest))); lia|].
+    cbn [file_boxes_r] in Hrun. cbn [cencs] in *. rewrite lenN_app in *. rewrite zlen_app in Hf.
+    assert (Hfk : fits k) by (unfold fits; lia).
+    destruct (dec_box_r ld f pos (mkI (pre ++ cenc k ++ cencs rest) (lenN pre) cst)) as [rb s1] eqn:Eb.
+    destruct (r_loops ld LD f) as [HB _].
+    assert (HI : IInv (mkI (pre ++ cenc k ++ cencs rest) (lenN pre) cst)).
+    { unfold IInv, ip, il. cbn [ibuf ipos]. rewrite <- !zlen_lenN. rewrite !zlen_app in *. pose proof (zlen_nonneg (cenc k)).
+      pose proof (zlen_nonneg (cencs rest)). lia. }
+    destruct (HB pos _ HI) as [rb' [s1' [Eb' [_ [NF _]]]]]. rewrite Eb in Eb'.
+    apply pair_equal_spec in Eb'. destruct Eb' as [Er Es]. subst rb' s1'.
+    assert (Hno : rb <> OutOfFuel).
+    { apply NF. unfold irem, ip, il. cbn [ibuf ipos]. rewrite <- !zlen_lenN. rewrite !zlen_app in *. lia. }
+    assert (Ebuf : pre ++ cenc k ++ cencs rest = pre ++ cenc k ++ (cencs rest ++ [])) by (rewrite app_nil_r; reflexivity).
+    assert (Eb2 : dec_box_r ld f pos (mkI (pre ++ cenc k ++ (cencs rest ++ [])) (lenN pre) cst) = (rb, s1))
+      by (rewrite <- Ebuf; exact Eb).
+    destruct (box_canon_r_all ld k HWk Hfk f pos pre (cencs rest ++ []) cst rb s1) as [Ho|[Ho [Hb1 Hp1]]];
+      try exact Eb2; try lia.
+    { rewrite <- Ebuf. exact Hs. }
+    { contradiction. }
+    subst rb. rewrite (tsize_erase ld k HWk Hfk) in Hrun.
+    assert (Hpos' : addu64 pos (lenN (cenc k)) = (pos + lenN (cenc k))%N) by (unfold addu64; rewrite N.mod_small; lia).
+    rewrite Hpos' in Hrun.
+    destruct s1 as [b1 p1 c1]. cbn [ibuf ipos] in Hb1, Hp1. subst b1 p1. rewrite <- Ebuf in Hrun.
+    assert (Ebuf2 : pre ++ cenc k ++ cencs rest = (pre ++ cenc k) ++ cencs rest) by (rewrite <- app_assoc; reflexivity).
+    rewrite Ebuf2 in Hrun. replace (lenN pre + lenN (cenc k))%N with (lenN (pre ++ cenc k)) in Hrun by apply lenN_app.
+    rewrite (IH HWr ltac:(lia) f (pos + lenN (cenc k))%N (erase k :: acc) (pre ++ cenc k) c1 r s'); try assumption; try lia.
+    + cbn [rev map]. rewrite <- app_assoc. reflexivity.
+    + rewrite <- Ebuf2. exact Hs.
+    + rewrite (zlen_lenN (cenc k)) in Hf. lia.
+Qed.
+
+(* a canonical file = the concatenation of canonical top-level boxes: both loops deliver the same box sequence *)
+Theorem file_boxes_agree : forall cs, Forall (cwf ld) cs -> (lenN (cencs cs) < 4294967296)%N ->
+  fst (file_sr ld (cencs cs)) = Ok (map erase cs) /\ fst (file_r ld (cencs cs)) = Ok (map erase cs).
+Proof.
+  intros cs HW Hl.
+  assert (Hz : zlen ([] ++ cencs cs) < two63) by (cbn [app]; rewrite zlen_lenN; unfold two63; lia).
+  assert (Hf : zlen (cencs cs) + 1 < Z.of_nat (S (S (length (cencs cs))))) by (unfold zlen; lia).
+  split.
+  - unfold file_sr. destruct (file_boxes_sr ld _ 0 [] (snew (cencs cs))) as [r s'] eqn:E. cbn [fst].
+    apply (file_sr_canon cs HW Hl _ 0%N [] [] cost0 r s' Hz ltac:(lia) Hf). exact E.
+  - unfold file_r. destruct (file_boxes_r ld _ 0 [] (inew (cencs cs))) as [r s'] eqn:E. cbn [fst].
+    apply (file_r_canon cs HW Hl _ 0%N [] [] cost0 r s' Hz ltac:(lia) Hf). exact E.
+Qed.
+End FILEC.
